@@ -97,7 +97,8 @@ Proof.
   unfold rename_child_to. apply kf_bind; [apply kf_gets|intros ffr]. apply kf_bind; [apply kf_gets|intros tfr].
   apply kf_bind; [apply kf_mark_child_deleted|intros _]. apply kf_bind.
   - apply kf_remove_with_name. intros g r Hg. inversion Hg; subst; clear Hg.
-    apply kf_bind; [apply kf_gets|intros fr]. apply kf_bind; [destruct (fr_parent fr); [apply kf_dec_ref_|apply kf_panic]|intros _]. kf.
+    apply kf_bind; [apply kf_gets|intros fr]. apply kf_bind; [kf|intros _]. apply kf_bind; [kf|intros _]. apply kf_bind; [kf|intros _].
+    apply kf_bind; [kf|intros _]. apply kf_bind; [destruct (fr_parent fr); [apply kf_dec_ref_|apply kf_panic]|intros _]. kf.
   - intros o. destruct o; [|apply kf_ret]. apply kf_bind; [kf|intros _].
     apply kf_bind; [apply kf_gets|intros fuel; apply kf_notify_name_change].
 Qed.
